@@ -67,6 +67,7 @@ type profile struct {
 	defect                                                                     string // C10: inject one defect
 	calls                                                                      int    // number of calls in the history (C11)
 	oneStrategy                                                                string // "", "R", "A"
+	fullDepth                                                                  bool   // never lower ggql.MaxResolveDepth (leaked Go values cannot be written as JSON: C07)
 }
 
 // genCommon restricts generation to the feature set the three resolver strategies share (C02):
@@ -994,6 +995,11 @@ func genExecCase(r *rand.Rand, p *profile, id string) Case {
 	}
 	input := sx.L("exec", s.sexp(), strat, graph, sx.L("root", sx.A(g.byType[1][0]), sx.A(mroot)),
 		sx.L("any", anyS), sx.L("doc", ops, frags), calls)
+	if !genCommon && !p.fullDepth && p.defect == "" && chance(r, 0.12) {
+		// a small ggql.MaxResolveDepth: the budget binds inside the document
+		input = append(input, sx.L("maxdepth", sx.A(2+r.Intn(7))))
+		d.feats["small-depth-budget"] = true
+	}
 	if d.defectInfo != nil {
 		input = append(input, d.defectInfo)
 		d.feats["defect:"+sx.List(d.defectInfo)[1].(string)] = true
